@@ -78,6 +78,11 @@ def run(tier, seed):
     C.write_gen('Gen/TrialCacheSrc.v', trialcache.translate(C.REPO))
   except Exception as e:  # pylint: disable=broad-except
     tbroke = 'translator harness/translate/trialcache.py refused trial_caches.py: %r' % (e,)
+  try:
+    from harness.translate import policysteps
+    C.write_gen('Gen/PolicySrc.v', policysteps.translate(C.REPO))
+  except Exception as e:  # pylint: disable=broad-except
+    tbroke = ((tbroke or '') + ' translator harness/translate/policysteps.py refused designer_policy.py: %r' % (e,)).strip()
   C.standard_proof_step(rep, 'C12')
   broke = ((tbroke or '') + ' ' + (rep.proof_broken or '')).strip() or None
   concrete = False
